@@ -937,6 +937,68 @@ pub fn build(full_name: &str, level: u8) -> Option<Scenario> {
                 }
             });
         }
+        // ------------------------------------------------------------ LAG2
+        // 5 nodes, voters {1,2,3}. The leader added voter 4 (index 2) and then voter 5 (index
+        // 3), each committed and applied by 1, 2, 4, 5. Node 3 holds both entries, but crashed
+        // between writing entry 3 and writing the hard state that carried commit = 2 (the
+        // documented write order): it restarts with commit = 1 and its configuration two
+        // changes old. Nodes 3 and 4 may time out.
+        n if n.starts_with("lag2") => {
+            s = Scenario::new(name, 5);
+            s.voters = vec![1, 2, 3];
+            s.cc_menu = vec![CcSpec::V1(0, 4), CcSpec::V1(0, 5)];
+            s.prefix = vec![
+                Action::Timeout(1),
+                Action::Settle,
+                Action::ProposeCc(1, 0),
+                Action::Settle0(1),
+                Action::Deliver(1, 2),
+                Action::Settle0(2),
+                Action::Deliver(1, 3),
+                Action::Settle0(3),
+                Action::Deliver(2, 1),
+                Action::Settle0(1),
+                Action::Deliver(3, 1),
+                Action::Settle0(1),
+                Action::Isolate(3),
+                Action::Settle,
+                Action::ProposeCc(1, 1),
+                Action::Settle0(1),
+                Action::Deliver(1, 3),
+                Action::Ready(3, Cut::Writes(1)),
+                Action::Settle,
+                Action::Isolate(3),
+                Action::Restart(3),
+                Action::DropAll,
+            ];
+            s.timeoutable = vec![3, 4];
+            if l == 0 {
+                // level 0 also scripts node 4's election (term 2, votes of 5 and 2; node 1 has
+                // not heard of it); only node 3 may time out
+                s.prefix.extend(vec![
+                    Action::Timeout(4),
+                    Action::Settle0(4),
+                    Action::Deliver(4, 5),
+                    Action::Settle0(5),
+                    Action::Deliver(5, 4),
+                    Action::Settle0(4),
+                    Action::Deliver(4, 2),
+                    Action::Settle0(2),
+                    Action::Deliver(2, 4),
+                    Action::Settle0(4),
+                    Action::DropAll,
+                ]);
+                s.timeoutable = vec![3];
+            }
+            s.clients_at = vec![];
+            s.crashable = vec![];
+            s.max_term = 2 + (l as u64).saturating_sub(1);
+            s.max_index = 6;
+            s.caps = caps(|c| {
+                c.timeouts = if l == 0 { 1 } else { 2 };
+                c.props = 0;
+            });
+        }
         // ------------------------------------------------------------ MEMBER
         n if n.starts_with("member") => {
             // the spare node 4 is pointless when the menu never adds it
